@@ -2,7 +2,7 @@
 import json, os, re, copy
 import vlib, pipelib
 
-MC_CFGS = ["A", "Af", "B", "C", "D", "E", "F", "N", "G"]
+MC_CFGS = ["A", "Af", "B", "C", "D", "E", "F", "N", "G", "H"]
 
 
 def model_check(ctx, cfgs):
